@@ -4,6 +4,8 @@ import (
 	"fmt"
 	"go/ast"
 	"go/token"
+	"os"
+	"path/filepath"
 	"sort"
 	"strings"
 
@@ -338,6 +340,14 @@ func genC08(repo string) (string, error) {
 	}
 	o.strList("step_kinds", kinds, "step.go: types with a CheckSafety method")
 
+	// where peer ids come from: every metapb.Peer literal of non-test code under server/ that sets `Id`
+	// (everything else reaches the builder with id 0 and gets b.cluster.AllocID())
+	lits, err := c08PeerLiteralsWithID(repo)
+	if err != nil {
+		return "", err
+	}
+	o.strList("peer_literals_with_id", lits, "server/**: metapb.Peer{... Id: e ...} literals outside tests and mocks: file: function: e")
+
 	cf, err := goast.Load(repo, "server/schedule/operator/create_operator.go")
 	if err != nil {
 		return "", err
@@ -362,4 +372,50 @@ func genC08(repo string) (string, error) {
 	fmt.Fprintf(&o.sb, "Definition helper_calls : list (string * list string) := (* create_operator.go: builder API calls per helper, source order *)\n  %s.\n",
 		"["+strings.Join(rows, ";\n   ")+"]")
 	return o.sb.String(), nil
+}
+
+// every composite literal of type metapb.Peer with an `Id` field in non-test, non-mock code under server/
+func c08PeerLiteralsWithID(repo string) ([]string, error) {
+	var out []string
+	root := filepath.Join(repo, "server")
+	err := filepath.Walk(root, func(p string, info os.FileInfo, err error) error {
+		if err != nil {
+			return err
+		}
+		if info.IsDir() || !strings.HasSuffix(p, ".go") || strings.HasSuffix(p, "_test.go") ||
+			strings.Contains(p, "mock") || strings.HasSuffix(p, "test_util.go") || strings.Contains(p, "testutil") ||
+			strings.Contains(filepath.Base(p), "verif_export") {
+			return nil
+		}
+		rel, _ := filepath.Rel(repo, p)
+		f, err := goast.Load(repo, rel)
+		if err != nil {
+			return err
+		}
+		for _, d := range f.AST.Decls {
+			fd, ok := d.(*ast.FuncDecl)
+			if !ok || fd.Body == nil {
+				continue
+			}
+			alphaLocals(f.Fset, fd)
+			ast.Inspect(fd.Body, func(n ast.Node) bool {
+				cl, ok := n.(*ast.CompositeLit)
+				if !ok {
+					return true
+				}
+				if se, ok := cl.Type.(*ast.SelectorExpr); !ok || se.Sel.Name != "Peer" || f.Src(se.X) != "metapb" {
+					return true
+				}
+				for _, e := range cl.Elts {
+					if kv, ok := e.(*ast.KeyValueExpr); ok && f.Src(kv.Key) == "Id" {
+						out = append(out, rel+": "+fd.Name.Name+": "+f.Src(kv.Value))
+					}
+				}
+				return true
+			})
+		}
+		return nil
+	})
+	sort.Strings(out)
+	return out, err
 }
